@@ -504,9 +504,12 @@ func (r *replayer) refeed(s sink, op string, bc *core.BlockChain) {
 		if firstErr != "" {
 			cause = "after_import_error"
 		}
-		fb := wl.Lookup(r.a.final)
+		fnum := uint64(0)
+		if fb := wl.Lookup(r.a.final); fb != nil {
+			fnum = fb.NumberU64()
+		}
 		s.Violate("refeed_diverges", op, cause, fmt.Sprintf("prefix %d (%s): after importing the original blocks again the head is %d %x, the crash-free run ended on %d %x; first import error: %q",
-			r.k, op, got.NumberU64(), got.Hash(), fb.NumberU64(), r.a.final, firstErr))
+			r.k, op, got.NumberU64(), got.Hash(), fnum, r.a.final, firstErr))
 		return
 	}
 	s.Count("refeed_converged")
